@@ -17,7 +17,12 @@ from pyvc.core import (Executor, Unsupported, ContractError, extract, extract_pr
 def _extract(contract):
     if contract.prop:
         return extract_property(contract.file, contract.qual, contract.prop)
-    return extract(contract.file, contract.qual)
+    fn = extract(contract.file, contract.qual)
+    if contract.region:
+        from pyvc.core import extract_region
+        test, which = contract.region if isinstance(contract.region, tuple) else (contract.region, 0)
+        return extract_region(fn, test, which)
+    return fn
 
 
 def source_digest(fn):
